@@ -6,7 +6,10 @@ Workload 1: generated histories of 10-60 mutator / query calls on a live FlowIRC
             cache is warm before the next write.
 Oracle    : live.get_component_configuration(c, raw=False, include_default=True, platform=P) must equal
             FlowIRConcrete(live.raw(), P, documents).get_component_configuration(...) (from scratch,
-            cold cache); then the returned dict is wrecked in place and the query repeated: unchanged.
+            cold cache) - as dictionaries and leaf by leaf with the same type and repr (1 / 1.0 / True are
+            different values); then the returned dict is wrecked in place and the query repeated: unchanged.
+            Half of the value-carrying updates are tried as "equal twins" of the stored value (== but another
+            type, or None for a variable the layer does not define yet).
 Workload 2: some of the repository's own test modules run under a pytest plugin
             (checks/_c08_pytest_plugin.py) that attaches the same post-condition to every call of
             FlowIRConcrete.get_component_configuration.
@@ -66,7 +69,93 @@ def _var_value(r, name, k):
     x = r.random()
     if x < 0.2 and name in VAR_ORDER and VAR_ORDER.index(name) < 5:
         return "h%d:%s=%%(n2)s" % (k, name)
+    if x > 0.88:
+        return r.choice([0, 1, True, False, 4, 2.0, k])     # later "equal twin" updates need non-string values
     return "h%d:%s" % (k, name)
+
+
+# ----------------------------------------------------------------------------- equal-twin updates
+# An update whose new value compares equal (Python ==) to the stored one although it is a different
+# value of the description (1 -> True, 4 -> 4.0, 0 -> False, 1.0 -> 1), or that gives a variable the
+# layer does not define yet the value None (dict.get's default).  "The value did not change, keep the
+# cache" shortcuts are wrong exactly there.  The stored value is read from live.raw() before the draw.
+
+MISSING = object()
+
+
+def _dig(d, path):
+    for p in path:
+        if not isinstance(d, dict):
+            return MISSING
+        if p in d:
+            d = d[p]
+        elif isinstance(p, int) and str(p) in d:
+            d = d[str(p)]
+        else:
+            return MISSING
+    return d
+
+
+def stored_value(raw, op):
+    """The value the description currently holds at the place `op` is about to write (MISSING if
+    none; None when the operation kind has no single value slot)."""
+    kind = op["op"]
+    if kind == "set_global_variable":
+        return _dig(raw, ["variables", "default", "global", op["name"]])
+    if kind == "set_stage_variable":
+        return _dig(raw, ["variables", "default", "stages", op["stage"], op["name"]])
+    if kind == "set_platform_global_variable" or (kind == "edit_global_ref" and not op["delete"]):
+        return _dig(raw, ["variables", op["platform"], "global", op["name"]])
+    if kind == "set_platform_stage_variable" or (kind == "edit_stage_ref" and not op["delete"]):
+        return _dig(raw, ["variables", op["platform"], "stages", op["stage"], op["name"]])
+    if kind in ("set_component_variable", "set_component_option", "conf_set_option", "edit_component_ref"):
+        comp = [c for c in raw.get("components", []) if [c.get("stage", 0), c.get("name")] == list(op["comp"])]
+        if len(comp) != 1:
+            return None
+        if kind == "set_component_variable":
+            return _dig(comp[0], ["variables", op["name"]])
+        if kind == "edit_component_ref":
+            return _dig(comp[0], op["path"])
+        if op["route"].startswith("#"):
+            return _dig(comp[0], op["route"][1:].split("."))
+        return _dig(comp[0], ["variables", op["route"]])
+    return None
+
+
+def equal_twin(r, cur, is_variable):
+    """(label, value) with value == cur under Python equality but of another type; for a variable
+    that is not defined at that place: None.  (None, None) when there is no such value."""
+    if cur is MISSING:
+        return ("none_for_new_variable", None) if is_variable and r.random() < 0.35 else (None, None)
+    if isinstance(cur, bool):
+        return "number_for_bool", r.choice([int(cur), float(cur)])
+    if isinstance(cur, int):
+        cands = [("float_for_int", float(cur))]
+        if cur in (0, 1):
+            cands.append(("bool_for_int", bool(cur)))
+        return r.choice(cands)
+    if isinstance(cur, float) and cur.is_integer():
+        cands = [("int_for_float", int(cur))]
+        if cur in (0.0, 1.0):
+            cands.append(("bool_for_float", bool(cur)))
+        return r.choice(cands)
+    return None, None
+
+
+def make_twin(r, raw, op):
+    cur = stored_value(raw, op)
+    if cur is None:
+        return
+    if op["op"] == "edit_component_ref":
+        is_variable = op["path"][0] == "variables"
+    elif op["op"] in ("set_component_option", "conf_set_option"):
+        is_variable = not op["route"].startswith("#")
+    else:
+        is_variable = True
+    label, value = equal_twin(r, cur, is_variable)
+    if label is not None:
+        op["value"] = value
+        op["twin"] = label
 
 
 def _component_description(r, gen, stage, name, k):
@@ -83,6 +172,13 @@ def _component_description(r, gen, stage, name, k):
 
 def next_op(r, gen, state, k, hostile, wrapped):
     """Draw the k-th operation given the current component ids / platforms (explicit, replayable)."""
+    op = _draw_op(r, gen, state, k, hostile, wrapped)
+    if "value" in op and state.get("raw") is not None and r.random() < 0.5:
+        make_twin(r, state["raw"], op)
+    return op
+
+
+def _draw_op(r, gen, state, k, hostile, wrapped):
     comps = state["comps"]
     platforms = state["platforms"]
     plat = r.choice(platforms)
@@ -226,6 +322,17 @@ def same(a, b):
     return a.get("raised") is not None and a.get("raised") == b.get("raised")
 
 
+def typed(x):
+    """The configuration with every scalar leaf replaced by (type name, repr): 1, 1.0 and True are
+    equal for Python but they are different values of a configuration (they interpolate and
+    serialise differently), so `==` alone cannot see an update from one to the other."""
+    if isinstance(x, dict):
+        return {k: typed(v) for k, v in x.items()}
+    if isinstance(x, (list, tuple)):
+        return [type(x).__name__] + [typed(v) for v in x]
+    return (type(x).__name__, repr(x))
+
+
 def first_diff(a, b, path=()):
     if isinstance(a, dict) and isinstance(b, dict):
         for k in sorted(set(a) | set(b), key=str):
@@ -304,6 +411,7 @@ def run_history(hist, w, limit_ops=None):
         if ops is not None:
             op = ops[k]
         else:
+            state["raw"] = live.raw()       # where the equal-twin values are read from (a copy; no cache effect)
             op = next_op(r, gen, state, k, hostile, wrapped)
         executed.append(op)
         kinds_window = (kinds_window + [op["op"]])[-3:]
@@ -315,6 +423,10 @@ def run_history(hist, w, limit_ops=None):
         try:
             apply_op(live, cfg, op)
             w.count("ops_applied")
+            if op.get("twin"):
+                w.count("twin_updates_applied")
+                w.count("twin_" + op["twin"])
+                w.count("twin_via_" + op["op"])
         except Exception as e:
             w.count("ops_raised")
             w.count("ops_raised_" + type(e).__name__)
@@ -326,7 +438,9 @@ def run_history(hist, w, limit_ops=None):
             continue
         # ---- checkpoint: every (component, platform) pair against a from-scratch instance
         w.count("checkpoints")
-        w.distinct(">".join(kinds_window))
+        w.distinct(">".join(kinds_window) + ("~" + op["twin"] if op.get("twin") else ""))
+        if op.get("twin"):
+            w.count("twin_updates_checked")
         raw0 = live.raw()
         active = live.active_platform
         fresh = FlowIRConcrete(raw0, active, None)
@@ -337,6 +451,7 @@ def run_history(hist, w, limit_ops=None):
         for d in deleted[-2:]:
             if d not in comps:
                 pairs.append((d, active))
+        oplabel = op["op"] + (" (equal twin of the stored value: %s)" % op["twin"] if op.get("twin") else "")
         for cid, plat in pairs:
             a = outcome(live, cid, plat)
             b = outcome(fresh, cid, plat)
@@ -350,12 +465,12 @@ def run_history(hist, w, limit_ops=None):
                 if "ok" in a and "ok" in b:
                     d = first_diff(a["ok"], b["ok"])
                     what = "after %s: %s on %r has %s = %r, from scratch %r" % (
-                        op["op"], cid, plat, ".".join(map(str, d[0])), d[1], d[2])
+                        oplabel, cid, plat, ".".join(map(str, d[0])), d[1], d[2])
                     if own_label_not_matched(cid):
                         key = KEY_REGEX
                 else:
                     what = "after %s: %s on %r gives %s, from scratch %s" % (
-                        op["op"], cid, plat, a.get("raised") or "a configuration", b.get("raised") or "a configuration")
+                        oplabel, cid, plat, a.get("raised") or "a configuration", b.get("raised") or "a configuration")
                     if (a.get("raised") == "FlowIRInconsistency" and "stages" in a.get("message", "")
                             and b.get("raised") != "FlowIRInconsistency"
                             and plat in global_setter_platforms and plat not in initial_platforms):
@@ -369,6 +484,19 @@ def run_history(hist, w, limit_ops=None):
                     return
                 continue
             if "ok" in a:
+                w.count("compared_typed")
+                ta, tb = typed(a["ok"]), typed(b["ok"])
+                if ta != tb:
+                    d = first_diff(ta, tb)
+                    what = "after %s: %s on %r has %s = %s, from scratch %s (equal for Python, not the same value)" % (
+                        oplabel, cid, plat,
+                        ".".join(map(str, d[0])), "%s %s" % tuple(d[1]) if isinstance(d[1], tuple) else d[1],
+                        "%s %s" % tuple(d[2]) if isinstance(d[2], tuple) else d[2])
+                    key = KEY_REGEX if own_label_not_matched(cid) else None
+                    w.violation(what, witness, finding_key=key)
+                    if key is None:
+                        return
+                    continue
                 snapshot = copy.deepcopy(a["ok"])
                 wreck(a["ok"])
                 again = outcome(live, cid, plat)
@@ -486,7 +614,10 @@ def main():
             "platform arguments are platforms of the document, except in the hostile slice (1 history in 5) where "
             "set_platform_global_variable may name a new platform and component names may contain regular-"
             "expression metacharacters (+ $ ?): the two known mechanisms cannot trigger in the other 4 of 5",
-            "equality is Python == on the returned dictionaries / the exception class",
+            "equality is Python == on the returned dictionaries plus the same type and repr of every scalar leaf "
+            "(1, 1.0 and True are different values of a configuration) / the exception class",
+            "equal-twin updates (new value == stored value, other type) are drawn for every variable and option "
+            "setter; None is only given to variables the written layer does not define yet, never to options",
         ])
     c.max_samples = 3
     scratch = vlib.mkscratch("c08")
@@ -513,6 +644,9 @@ def main():
     c.floor("compared_both_resolved", 6000 if quick else 150000)
     c.floor("private_copy_probes", 6000 if quick else 150000)
     c.floor("ops_applied", 3000 if quick else 80000)
+    c.floor("twin_updates_checked", 400 if quick else 10000)
+    c.floor("twin_via_set_platform_stage_variable", 30 if quick else 800)
+    c.floor("compared_typed", 6000 if quick else 150000)
     c.floor("contract_evaluations", 50 if quick else 300)
     sys.exit(c.finish())
 
